@@ -82,6 +82,18 @@ theorem references_resolve {defs : List Def} {ii : Indexed} (h : build defs = so
   rw [e]
   exact (perm_sortDedup_specDistinct _ Instrument.sortKey_inj _).map some
 
+/-- (3) without any hypothesis: every instrument's exchange reference points at the entry of the
+exchange it was defined with, and lookups by name succeed for everything a definition mentions. -/
+theorem exchange_reference_resolves {defs : List Def} {ii : Indexed} (h : build defs = some ii)
+    (k : Nat) (x : Keyed Nat IInstrument) (hx : ii.instruments[k]? = some x) :
+    ii.exchanges[x.value.exchange.key]? = some x.value.exchange ∧
+      ∃ d ∈ defs, x.value.exchange.value = d.exchange ∧ x.value.nameInternal = d.nameInternal ∧
+        x.value.nameExchange = d.nameExchange := by
+  obtain ⟨d, hd, _, hev, hek, hn, hne, _⟩ := build_instrument_at defs ii h k x hx
+  obtain ⟨h1, _⟩ := build_some defs ii h
+  refine ⟨?_, d, (mem_sortedDefs _ _).mp (List.mem_iff_getElem?.mpr ⟨_, hd⟩), hev, hn, hne⟩
+  rw [h1, getElem?_enumerate, hek, ← hev]; rfl
+
 /-- (4) `order_independent`: the result depends only on the *set* of definitions – not on the
 insertion order, and not on how often a definition is repeated. -/
 theorem order_independent (l1 l2 : List Def) (hmem : ∀ d, d ∈ l1 ↔ d ∈ l2) : build l1 = build l2 := by
@@ -202,6 +214,15 @@ theorem tables_aligned_exec {defs : List Def} {ii : Indexed} (h : build defs = s
       ∀ k : Nat, tab[k]? = ii.exchanges[k]?.map (fun x => (x.value, decide (x.value ∈ es))) := by
   refine ⟨_, execBuild_eq defs ii h es txs hadd, fun k => ?_⟩
   rw [List.getElem?_map]
+
+/-- (5) the hypothesis of `tables_aligned_exec` is satisfiable for every duplicate-free choice of
+indexed exchanges: `add_execution` succeeds for each of them, in any order. -/
+theorem exec_add_total {defs : List Def} {ii : Indexed} (h : build defs = some ii) (es : List Nat)
+    (hn : es.Nodup) (hin : ∀ e ∈ es, ∃ d ∈ defs, d.exchange = e) :
+    ∃ txs, execAddAll ii [] es = some txs :=
+  execAddAll_total ii es [] (by simp) hn (fun e he => by
+    obtain ⟨d, hd, rfl⟩ := hin e he
+    exact findExchange_total defs ii h d hd)
 
 /-- (5) reading instrument `k` through the engine's instrument, connectivity and asset tables
 (positions only) gives its index and the definition it was built from. -/
